@@ -88,6 +88,9 @@ class Controller:
             idle_rounds = 0
             if quiescent:
                 self.log.append(('QUIESCE',))
+            for k0 in [k0 for k0, f0 in self.waiting.items() if f0.done()]:
+                del self.waiting[k0]          # cancelled together with its sim_process task
+            if not self.waiting: continue
             keys = list(self.waiting)
             k = self.choose(keys)
             self.opened.append(k)
